@@ -17,6 +17,8 @@ PSC::DataType Parser::getPSCType() {
         return PSC::DataType::CHAR;
     } else if (currentToken->value == "STRING") {
         return PSC::DataType::STRING;
+    } else if (currentToken->value == "DATE") {
+        return PSC::DataType::DATE;
     } else {
         std::abort();
     }
